@@ -64,21 +64,20 @@ class C10:
             return PYPY[target][0]
         return self.magics[rm.vtuple(target)]
 
-    def strategy(self, ctx):
-        @st.composite
-        def case(draw):
-            enc = draw(st.sampled_from(["real", "ref", "ref"]))
-            if enc == "real":
-                target = draw(st.sampled_from(REAL_TARGETS))
-                mver = draw(st.integers(0, 2 if target == "2.7" else 4))
-            else:
-                target = draw(st.sampled_from(REF_TARGETS))
-                mver = None
+    def strata(self, ctx):
+        out = []
+        for target in REF_TARGETS:
             py2 = target.startswith("2.") or target == "pypy2.7"
-            vals = draw(gv.shared_values(py2))
-            choices = draw(st.lists(st.integers(0, 255), max_size=40)) if enc == "ref" else []
-            return {"target": target, "enc": enc, "mver": mver, "values": vals, "choices": choices}
-        return case()
+            if target in REAL_TARGETS:
+                out.append(["real:" + target, st.tuples(st.integers(0, 2 if target == "2.7" else 4), gv.shared_values(py2)).map(
+                    lambda p, target=target: {"target": target, "enc": "real", "mver": p[0], "values": p[1], "choices": []}), 2])
+            out.append(["ref:" + target, st.tuples(gv.shared_values(py2), st.lists(st.integers(0, 255), max_size=40)).map(
+                lambda p, target=target: {"target": target, "enc": "ref", "mver": None, "values": p[0], "choices": p[1]}),
+                3 if target in REAL_TARGETS else 2])
+        return out
+
+    def strategy(self, ctx):
+        return st.one_of([s_ for _, s_, _ in self.strata(ctx)])
 
     def judge(self, case, ctx):
         res = Result()
